@@ -93,6 +93,7 @@ THEOREMS = [
     "Spydr.Eblif.eblif_onNet_exact_text",
     "Spydr.Eblif.leaf_port_kept",
     "Spydr.Eblif.eblif_roundtrip_leaf_ports",
+    "Spydr.Eblif.eblif_roundtrip_leaf_dirs",
 ]
 MODULES = ["Spydr.Eblif.Props.C18", "Spydr.Eblif.Props.C18RoundTrip", "Spydr.Eblif.Props.C18ReadOk", "Spydr.Eblif.Props.C18Ports", "Spydr.Eblif.Props.C18BlackBox", "Spydr.Eblif.Props.C18FullParse", "Spydr.Eblif.Props.C18GenDefs", "Spydr.Eblif.Props.C18Mirror", "Spydr.Eblif.Props.C18Full", "Spydr.Eblif.Props.C18Any", "Spydr.Eblif.FragCheck"]
 
